@@ -33,7 +33,8 @@ JVM_ENV = {"JAVA_TOOL_OPTIONS": "-XX:ParallelGCThreads=1 -XX:CICompilerCount=2"}
 DEVS = ["PrimeTableEndsAt1009", "ZeroPadExtension", "NSquaredPhase", "ShiftDenominator8",
         "TapWindowOffByOne", "LsGramNotConjugated",
         "NormalizeFlagSplit", "ExtraDimByIdentity",
-        "UserCreationAliasesRoot", "WindowCachedOnEstimator", "ResultBufferReused"]     # the last three: RefSession.tla
+        "UserCreationAliasesRoot", "WindowCachedOnEstimator", "ResultBufferReused",
+        "CoverCodeIsCallersView", "EstimatorKeepsCallersArray"]                         # the last five: RefSession.tla
 INVARIANTS = ["PrimeIsLargest", "ConstantAmplitude", "ZeroAutocorrelation", "FlatSpectrum", "LargeLengthLags", "CyclicExtension",
               "RootIsExtendedZc", "UeIsShiftedRoot", "ShiftOrthogonality", "LsExact", "LsScaleCovariant", "ScenarioOk",
               "EstimateExact", "EstimateHomogeneous", "FlagAgreement"]
@@ -334,12 +335,13 @@ def flagval(v, form="bool"):
     return bool(v)
 
 
-def ue_seq(fam, root, ncs, cover, normalize, form="bool"):
+def ue_seq(fam, root, ncs, cover, normalize, form="bool", cover_arr=None):
+    """cover_arr: the caller's own cover-code buffer (kept by the caller, see RefSession OverwriteCover)"""
     from pyphysim.reference_signals.dmrs import DmrsUeSequence
     from pyphysim.reference_signals.srs import SrsUeSequence
     if fam == "srs":
         return SrsUeSequence(root, ncs, normalize=flagval(normalize, form))
-    cc = np.array(cover) if cover else None
+    cc = cover_arr if cover_arr is not None else (np.array(cover) if cover else None)
     return DmrsUeSequence(root, ncs, cover_code=cc, normalize=flagval(normalize, form))
 
 
@@ -646,7 +648,7 @@ def run(ctx):
     ctx.exhaustive = False
     # histories on shared objects (RefSession.tla)
     npaths = sum(c18_session.explore(ctx, row, r) for row, r in zip(sess, sess_runs))
-    ctx.require_actions(["CreateUser", "CreateEst", "Estimate", "CatUe", "CatEst"])
+    ctx.require_actions(["CreateUser", "CreateEst", "Estimate", "CatUe", "CatEst", "OverwriteCover", "OverwriteRef"])
     ctx.notes["session_paths_replayed"] = npaths
     t3 = _t.time()
     from . import c18_trace
